@@ -2,6 +2,10 @@ package main
 
 func init() {
 	addMutants(
+		Mutant{Property: "C13", Name: "string-table-driven", File: "internal/log.go",
+			Old: "func (l LogType) String() string {\n\tswitch l {\n\tcase SetMetadataLogType:\n\t\treturn \"SET_METADATA\"\n\tcase NewTransactionLogType:\n\t\treturn \"NEW_TRANSACTION\"\n\tcase RevertedTransactionLogType:\n\t\treturn \"REVERTED_TRANSACTION\"\n\tcase DeleteMetadataLogType:\n\t\treturn \"DELETE_METADATA\"\n\t}\n\n\treturn \"\"\n}", New: "var logTypeNames = [...]string{\n\tSetMetadataLogType: \"SET_METADATA\",\n\tNewTransactionLogType: \"NEW_TRANSACTION\",\n\tRevertedTransactionLogType: \"REVERTED_TRANSACTION\",\n\tDeleteMetadataLogType: \"DELETE_METADATA\",\n}\n\nfunc (l LogType) String() string {\n\tif l < 0 || int(l) >= len(logTypeNames) {\n\t\treturn \"\"\n\t}\n\treturn logTypeNames[l]\n}", Expect: "none", Benign: true},
+		Mutant{Property: "C13", Name: "string-table-driven-label-typo", File: "internal/log.go",
+			Old: "func (l LogType) String() string {\n\tswitch l {\n\tcase SetMetadataLogType:\n\t\treturn \"SET_METADATA\"\n\tcase NewTransactionLogType:\n\t\treturn \"NEW_TRANSACTION\"\n\tcase RevertedTransactionLogType:\n\t\treturn \"REVERTED_TRANSACTION\"\n\tcase DeleteMetadataLogType:\n\t\treturn \"DELETE_METADATA\"\n\t}\n\n\treturn \"\"\n}", New: "var logTypeNames = [...]string{\n\tSetMetadataLogType: \"SET_METADATA\",\n\tNewTransactionLogType: \"NEW_TRANSACTION\",\n\tRevertedTransactionLogType: \"REVERT_TRANSACTION\",\n\tDeleteMetadataLogType: \"DELETE_METADATA\",\n}\n\nfunc (l LogType) String() string {\n\tif l < 0 || int(l) >= len(logTypeNames) {\n\t\treturn \"\"\n\t}\n\treturn logTypeNames[l]\n}", Expect: "R13a:"},
 		Mutant{Property: "C13", Name: "delete-envelope-key-renamed", File: "internal/log.go",
 			Old: "\t\tTargetID   json.RawMessage `json:\"targetId\"`\n\t\tKey        string          `json:\"key\"`", New: "\t\tTargetID   json.RawMessage `json:\"targetId\"`\n\t\tKey        string          `json:\"metadataKey\"`", Expect: "R13h:ledger.DeleteMetadataLogPayload"},
 		Mutant{Property: "C13", Name: "set-envelope-key-case-only", File: "internal/log.go",
